@@ -129,8 +129,17 @@ impl Selector {
             .as_ref()
             .map(|s| s as *const _)
             .unwrap_or(ptr::null());
+        // no timer to wait for: block, unless the event loop asks for a poll only
         #[cfg(not(feature = "io_timeout"))]
-        let timeout = ptr::null();
+        let timeout_spec = libc::timespec {
+            tv_sec: 0,
+            tv_nsec: 0,
+        };
+        #[cfg(not(feature = "io_timeout"))]
+        let timeout = match _timeout {
+            Some(0) => &timeout_spec as *const libc::timespec,
+            _ => ptr::null(),
+        };
         // debug!("select; timeout={:?}", timeout_spec);
 
         let single_selector = &self.vec[id];
